@@ -137,7 +137,7 @@ def run_tlc(module, cfg, workers=12, timeout=3600, extra_args=(), env_extra=None
         meta = json.load(open(meta_p))
         meta["cached"] = True
         return meta
-    metadir = base + ".states"
+    metadir = base + ".states.%d" % os.getpid()    # per process: concurrent checks may compute the same key
     cmd = ["tlc", "-workers", str(workers), "-metadir", metadir, "-cleanup", "-noGenerateSpecTE",
            "-config", cfg]
     if coverage:
@@ -147,7 +147,8 @@ def run_tlc(module, cfg, workers=12, timeout=3600, extra_args=(), env_extra=None
     cmd += list(extra_args) + [module + ".tla"]
     t = time.time()
     env = scrubbed_env(env_extra)
-    tmp_out = base + ".out.tmp"
+    tmp_out = base + ".out.tmp.%d" % os.getpid()
+    out_tmp = out_p + ".%d" % os.getpid()
     with open(tmp_out, "wb") as fh:
         try:
             p = subprocess.run(["timeout", str(timeout)] + cmd, cwd=SPEC, env=env, stdout=fh,
@@ -161,7 +162,7 @@ def run_tlc(module, cfg, workers=12, timeout=3600, extra_args=(), env_extra=None
     err_lines = []
     cov = {}
     n_case = 0
-    with open(tmp_out, "rb") as fh, gzip.open(out_p, "wb", compresslevel=1) as gz:
+    with open(tmp_out, "rb") as fh, gzip.open(out_tmp, "wb", compresslevel=1) as gz:
         for raw in fh:
             if raw[:1] == b'"' and raw[1:9].split(b" ")[0] in (b"CASE", b"REPLAY", b"TRACE", b"VERSIONS", b"DISK"):
                 gz.write(raw)
@@ -181,12 +182,14 @@ def run_tlc(module, cfg, workers=12, timeout=3600, extra_args=(), env_extra=None
     if simulate and p.returncode in (0, 124) and not err_lines:
         ok = True
     os.unlink(tmp_out)
+    os.replace(out_tmp, out_p)      # atomic: a concurrent reader sees the old complete file or the new complete file
     meta = {"module": module, "cfg": cfg, "states": states or 0, "distinct": distinct or 0,
             "transitions": states or 0, "ok": ok and p.returncode == 0 or (bool(simulate) and ok),
             "rc": p.returncode, "errors": err_lines[:20], "coverage": cov, "wall_s": round(wall, 1),
             "out": out_p, "cases": n_case, "cmd": " ".join(cmd), "cached": False}
     if meta["ok"]:
-        json.dump(meta, open(meta_p, "w"))
+        json.dump(meta, open(meta_p + ".%d" % os.getpid(), "w"))
+        os.replace(meta_p + ".%d" % os.getpid(), meta_p)
     return meta
 
 
